@@ -96,6 +96,12 @@ class Facts:
         from . import inline as _inline
         allfns = [fn for d in loaded for fn in d['fns']]
         self.inlined = _inline.inline_unknown(allfns, _inline.load_known()) if os.environ.get('GV_NO_INLINE') != '1' else {}
+        if os.environ.get('GV_NO_THREAD') != '1':
+            inl = set(self.inlined)
+            for fn in allfns:
+                if fn['path'] in inl:
+                    _inline.merge_linear(fn)
+                _inline.thread_bool_jumps(fn)
         for d in loaded:
             cn = d['crate']
             self.crates[cn] = d
@@ -706,6 +712,12 @@ class FnView:
                 continue
             pe = self.place_expr(s['lhs'])
             yield (i, s, pe, self.rvalue_expr(s['rv'], i))
+        # `x.take()` leaves None behind: report it as the write `x := None` it is
+        for cs in self.calls(skip_log=True):
+            if short(cs.nfn) == 'Option::take' and len(cs.args) == 1:
+                pe = cs.arg(0)
+                if pe[0] in ('var', 'proj') and pe[2]:
+                    yield (cs.bb, {'k': 'assign', 'ln': cs.ln, 'synthetic': 'take'}, pe, ('agg', 'std::option::Option', 'None', ()))
 
 
 def _is_log_atom(a):
@@ -904,6 +916,31 @@ def atom_renderings(a):
     """All equivalent renderings of a guard atom: as written, with `x.unwrap()` spelled as the variant payload
     `x@Some.0` (what `if let Some(v) = x` / `let .. else` produce), and the other way round."""
     out = [show_atom(a)]
+    # emptiness: `q.front() / q.pop_front() / q.first() / h.peek() is Some|None` says the same as `!q.is_empty()` / `q.is_empty()`
+    try:
+        if a[0] == 'variant' and a[1][0] == 'call' and len(a[1][2]) == 1 and a[2] in (frozenset(['Some']), frozenset(['None'])):
+            sn = short(a[1][1])
+            cont, meth = sn.split('::')[0], sn.split('::')[-1]
+            if meth in ('front', 'back', 'pop_front', 'pop_back', 'pop', 'first', 'last', 'peek', 'peek_lru', 'pop_lru', 'iter_next'):
+                q = show(a[1][2][0])
+                out.append(('!' if a[2] == frozenset(['Some']) else '') + '%s::is_empty(%s)' % (cont, q))
+        if a[0] == 'truth' and a[1][0] == 'call' and len(a[1][2]) == 1 and short(a[1][1]).endswith('::is_empty'):
+            cont = short(a[1][1]).split('::')[0]
+            q = show(a[1][2][0])
+            v = 'None' if a[2] else 'Some'
+            for meth in (('front', 'pop_front') if cont == 'VecDeque' else ('first', 'last', 'pop') if cont in ('Vec', 'slice') else ('peek',) if cont == 'BinaryHeap' else ()):
+                out.append('%s::%s(%s) is %s' % (cont, meth, q, v))
+        if a[0] == 'variant' and a[1][0] == 'call' and len(a[1][2]) == 2 and short(a[1][1]) in ('HashMap::get', 'HashMap::get_mut', 'HashSet::get') and a[2] in (frozenset(['Some']), frozenset(['None'])):
+            cont = short(a[1][1]).split('::')[0]
+            out.append(('' if a[2] == frozenset(['Some']) else '!') + '%s::contains_key(%s, %s)' % (cont, show(a[1][2][0]), show(a[1][2][1])))
+    except Exception:
+        pass
+    # `x.take()` yields what x held: testing the taken value tests x
+    try:
+        if a[0] == 'variant' and a[1][0] == 'call' and len(a[1][2]) == 1 and short(a[1][1]) in ('Option::take', 'mem::take'):
+            out.append(show_atom(('variant', a[1][2][0]) + tuple(a[2:])))
+    except Exception:
+        pass
     for fn in (_unwrap_to_proj, _proj_to_unwrap):
         try:
             b = (a[0], map_expr(a[1], fn)) + tuple(a[2:])
@@ -1080,3 +1117,13 @@ def happens_before(view, a, b):
     if a[0] == b[0]:
         return a[1] < b[1]
     return view.dominates(a[0], b[0])
+
+
+
+def sum_terms(e):
+    """Flatten `a + b + ...` (checked or plain addition, any association/order) into a sorted list of term renderings."""
+    if e[0] == 'proj' and tuple(e[2]) == ('.0',) and e[1][0] == 'bin' and e[1][1] in ('AddWithOverflow', 'Add'):
+        return sorted(sum_terms(e[1][2]) + sum_terms(e[1][3]))
+    if e[0] == 'bin' and e[1] in ('Add', 'AddWithOverflow'):
+        return sorted(sum_terms(e[2]) + sum_terms(e[3]))
+    return [show(e)]
